@@ -54,6 +54,9 @@ pub struct HelloCase {
     pub sid_dup: bool,
     /// a second `<session-id>` element with its own text, after the first
     pub sid2: Option<String>,
+    /// one element is in a foreign namespace (same local name): 1 the `capabilities` wrapper,
+    /// 2 `session-id`, 3 every `capability`; 0 = none
+    pub foreign: u8,
     pub prefix: bool,
     pub sid_first: bool,
     pub comments: u8, // bit0: before capabilities, bit1: between, bit2: after
@@ -75,24 +78,31 @@ impl HelloCase {
             s.push_str("<?xml version=\"1.0\" encoding=\"UTF-8\"?>");
         }
         s.push_str(&format!("<{p}hello{ns}>"));
+        const EXT: &str = " xmlns:ext=\"urn:example:vendor\"";
         let caps = {
-            let mut c = format!("<{p}capabilities>");
+            let (wp, wns) = if self.foreign == 1 { ("ext:", EXT) } else { (p, "") };
+            let (cp, cns) = if self.foreign == 3 { ("ext:", EXT) } else { (p, "") };
+            let mut c = format!("<{wp}capabilities{wns}>");
             for b in &self.bases {
-                c.push_str(&format!("<{p}capability>{b}</{p}capability>"));
+                c.push_str(&format!("<{cp}capability{cns}>{b}</{cp}capability>"));
             }
             for e in &self.extra {
                 c.push_str(&format!(
-                    "<{p}capability>{}</{p}capability>",
+                    "<{cp}capability{cns}>{}</{cp}capability>",
                     e.replace('&', "&amp;").replace('<', "&lt;")
                 ));
             }
-            c.push_str(&format!("</{p}capabilities>"));
+            c.push_str(&format!("</{wp}capabilities>"));
             c
         };
         let sid = match &self.sid {
             None => String::new(),
             Some(v) => {
-                let one = format!("<{p}session-id>{v}</{p}session-id>");
+                let one = if self.foreign == 2 {
+                    format!("<ext:session-id{EXT}>{v}</ext:session-id>")
+                } else {
+                    format!("<{p}session-id>{v}</{p}session-id>")
+                };
                 let two = self
                     .sid2
                     .as_ref()
@@ -140,7 +150,9 @@ impl HelloCase {
             && self.sid.is_some()
             && !self.sid_dup
             && self.sid2.is_none()
-            && !self.junk;
+            && !self.junk
+            // an element of a foreign namespace is not the NETCONF element of that name
+            && self.foreign == 0;
         let uris_ok = self
             .extra
             .iter()
@@ -213,6 +225,7 @@ pub fn gen(opts: &Opts, rng: &mut Rng) -> Vec<HelloCase> {
                     sid: s.map(|x| x.to_string()),
                     sid_dup: false,
                     sid2: None,
+                    foreign: 0,
                     prefix,
                     sid_first: false,
                     comments: 0,
@@ -234,6 +247,7 @@ pub fn gen(opts: &Opts, rng: &mut Rng) -> Vec<HelloCase> {
                     sid: Some("77".into()),
                     sid_dup: v == 5,
                     sid2: None,
+                    foreign: 0,
                     prefix: v & 1 != 0,
                     sid_first: v & 2 != 0,
                     comments: if v == 3 {
@@ -261,6 +275,7 @@ pub fn gen(opts: &Opts, rng: &mut Rng) -> Vec<HelloCase> {
                     sid: Some(a.to_string()),
                     sid_dup: false,
                     sid2: Some(b.to_string()),
+                    foreign: 0,
                     prefix: false,
                     sid_first,
                     comments: 0,
@@ -272,6 +287,30 @@ pub fn gen(opts: &Opts, rng: &mut Rng) -> Vec<HelloCase> {
             }
         }
     }
+    // one element in a foreign namespace, every base set, both spellings of the base namespace
+    for b in &base_sets {
+        for foreign in 1..=3u8 {
+            for prefix in [false, true] {
+                for sid_first in [false, true] {
+                    out.push(HelloCase {
+                        bases: b.clone(),
+                        extra: vec![],
+                        sid: Some("4".into()),
+                        sid_dup: false,
+                        sid2: None,
+                        foreign,
+                        prefix,
+                        sid_first,
+                        comments: 0,
+                        decl: false,
+                        junk: false,
+                        no_caps: false,
+                        trailer: true,
+                    });
+                }
+            }
+        }
+    }
     let n = if opts.thorough() { 5000 } else { 400 };
     for _ in 0..n {
         out.push(HelloCase {
@@ -279,6 +318,7 @@ pub fn gen(opts: &Opts, rng: &mut Rng) -> Vec<HelloCase> {
             extra: rng.pick(&extras).clone(),
             sid: rng.pick(&sids).map(|x| x.to_string()),
             sid_dup: rng.chance(1, 12),
+            foreign: if rng.chance(1, 8) { 1 + rng.below(3) as u8 } else { 0 },
             sid2: if rng.chance(1, 10) {
                 rng.pick(&sids).map(|x| x.to_string())
             } else {
